@@ -56,13 +56,13 @@ CFG = {
         "category": "proof",
         "text": "Unbounded Coq theorems about a function-by-function Gallina transcription of schema_util.rs j2oas_*: "
                 "the converter succeeds exactly on the boolean shape predicate `convertible` (every panic site an "
-                "explicit Err); for every schema in `supported` without the null instance type, every JSON instance "
+                "explicit Err); for every schema in `supported` without the null instance type and with integer bounds that are integers inside i64 (`supported_faithful`), every JSON instance "
                 "and every interpretation of $ref, pattern and format, the converted OpenAPI 3.0 schema accepts the "
                 "instance iff the source schema does (induction on schema size over the nested AST), lifted to whole "
                 "documents with (recursive) references through definitions; per-keyword corollaries (required, enum, "
                 "numeric bounds, lengths, item limits and schemas, properties and additionalProperties, "
                 "all/any/one-of, not); annotations kept. The full statement is refuted in Coq for the null type "
-                "(known finding K4) and for parameter annotations (K5). Correspondence on every run: the real "
+                "(known finding K4), for fractional/out-of-range integer bounds (K6) and for parameter annotations (K5). Correspondence on every run: the real "
                 "converter driven through ApiDescription::openapi on 61 derived Rust types and seeded random / "
                 "keyword-injected schemas; the spec is evaluated in Coq on the published schema for generated valid "
                 "and mutated instances, and the published schema is compared structurally with the model.",
@@ -71,10 +71,9 @@ CFG = {
                 "correspondence run (sampled, seeded; the derived family is fixed and run completely); schemars and "
                 "openapiv3 are library code; `supported` is narrower than 'does not panic': shapes whose keywords the "
                 "converter silently drops (const, enum on object/array/untyped nodes, if/then/else, keywords beside "
-                "allOf/anyOf/oneOf/not, contains, patternProperties, propertyNames, fractional or out-of-i64 integer "
-                "bounds, empty enum, format on non-scalar nodes) are outside it and are reachable only through "
-                "hand-written JsonSchema impls or #[schemars(range)] with fractional bounds on an integer. Open "
-                "known findings K4, K5.",
+                "allOf/anyOf/oneOf/not, contains, patternProperties, propertyNames, empty enum, number enum values beyond 2^53, format on "
+                "non-scalar nodes) are outside it and are reachable only through hand-written JsonSchema impls. Open "
+                "known findings K4, K5, K6.",
         "technique": "Coq proof (size induction over a nested schema AST, semantics parametric in $ref/pattern/format) "
                      "+ seeded correspondence through the public OpenAPI generator with spec evaluation on instances"
     },
